@@ -8,6 +8,8 @@ import (
 	"context"
 	"fmt"
 	"math/rand"
+	"os"
+	"path/filepath"
 	"sort"
 	"strconv"
 	"strings"
@@ -182,6 +184,7 @@ type World struct {
 	O       WorldOpts
 	Rec     *sim.Recorder
 	Dir     *sim.SimDir
+	RDir    *sim.RecDir // DirKind fsrec: the real FileSystemDirectory behind the recorder
 	Cfg     bluge.Config
 	W       *bluge.Writer
 	rng     *rand.Rand
@@ -237,6 +240,28 @@ func (w *World) config() bluge.Config {
 		}
 		d := w.Dir
 		cfg = bluge.DefaultConfigWithDirectory(func() index.Directory { return d })
+	case "fsrec":
+		if w.RDir == nil {
+			os.MkdirAll(w.O.Path, 0o755)
+			for k, v := range w.O.Image {
+				var id uint64
+				fmt.Sscanf(k[5:], "%x", &id)
+				os.WriteFile(filepath.Join(w.O.Path, fmt.Sprintf("%012x%s", id, k[:4])), v, 0o644)
+			}
+			w.RDir = sim.NewRecDir(w.O.Path, w.Rec)
+			if w.O.OpDelayUs > 0 {
+				delayRng := rand.New(rand.NewSource(w.rng.Int63()))
+				var dm sync.Mutex
+				w.RDir.Gate = func(op sim.Op) {
+					dm.Lock()
+					d := delayRng.Intn(w.O.OpDelayUs + 1)
+					dm.Unlock()
+					time.Sleep(time.Duration(d) * time.Microsecond)
+				}
+			}
+		}
+		rd := w.RDir
+		cfg = bluge.DefaultConfigWithDirectory(func() index.Directory { return rd })
 	case "fs":
 		cfg = bluge.DefaultConfig(w.O.Path)
 	default:
@@ -816,4 +841,36 @@ func (w *World) HandleEvents(complete bool) string {
 		out = append(out, "HEnd")
 	}
 	return cq.List(out)
+}
+
+// ---- directory control independent of the kind (sim / fsrec) ----
+
+func (w *World) SetFaultAt(f func(op sim.Op) *sim.Fault) {
+	if w.Dir != nil {
+		w.Dir.FaultAt = f
+	}
+	if w.RDir != nil {
+		w.RDir.FaultAt = f
+	}
+}
+
+func (w *World) DirLocked() bool {
+	if w.RDir != nil {
+		return w.RDir.Locked()
+	}
+	return w.Dir.Locked()
+}
+
+func (w *World) DirOpenHandles() []string {
+	if w.RDir != nil {
+		return w.RDir.OpenHandles()
+	}
+	return w.Dir.OpenHandles()
+}
+
+func (w *World) DirImage() map[string][]byte {
+	if w.RDir != nil {
+		return w.RDir.Image()
+	}
+	return w.Dir.Image()
 }
